@@ -12,7 +12,8 @@ META = {
              'patterns, or the write is multi-chunk'),
     'required_obs': {'quick': ['rows-compared', 'frame-checked', 'row-multi-segment', 'c03-multi-chunk-remainder',
                                'c03-be-2d', 'c03-be-scalar', 'c03-le-2d', 'c03-special', 'c03-rand', 'c03-cast',
-                               'c03-src-inline', 'c03-src-dict', 'c03-src-struct', 'c03-src-hdf5']
+                               'c03-src-inline', 'c03-src-dict', 'c03-src-struct', 'c03-src-hdf5', 'c03-struct-fastpath',
+                               'c03-struct-permuted', 'c03-struct-aligned', 'c03-struct-view', 'c03-struct-packed']
                      + ['c03-dtype-' + d for d in gen.DTYPES]},
     'exhaustive_windows': {
         'quick': ['8 dtypes x byte order {<,>} x shape {(N,),(N,1),(N,3)} x layout {C,F,strided,view,readonly} x fill special (N=5, inline)'],
@@ -42,6 +43,8 @@ def cases(tier, seed):
         yield {'stratum': 'random', 'index': k, 'kind': 'random'}
     for k in range(100 if tier == 'quick' else 2000):
         yield {'stratum': 'random-cast', 'index': k, 'kind': 'random-cast'}
+    for k in range(120 if tier == 'quick' else 3000):
+        yield {'stratum': 'struct-fastpath', 'index': k, 'kind': 'fastpath'}
 
 
 def run_case(case):
@@ -112,6 +115,13 @@ def run_case(case):
                     go(sp)
     else:
         r = gen.rng(seed, PROP, case['stratum'], case['index'])
-        sp = gen.frame_spec(r, casts=(case['kind'] == 'random-cast'), nframes=r.choice([1, 1, 2]))
+        if case['kind'] == 'fastpath':
+            sp = gen.fastpath_spec(r, window=r.random() < 0.3)
+            bump('c03-struct-fastpath')
+            if sp['write'].get('perm_seed') is not None:
+                bump('c03-struct-permuted')
+            bump('c03-struct-' + (sp['write'].get('struct_variant') or 'packed'))
+        else:
+            sp = gen.frame_spec(r, casts=(case['kind'] == 'random-cast'), nframes=r.choice([1, 1, 2]))
         go(sp)
     return {'evals': evals, 'violations': vio, 'obs': obs, 'sigs': sorted(set(sigs)), 'sample': sample}
